@@ -114,7 +114,7 @@ def run_case(case, res):
             o = call_clean(c, name)
             repeated = i > 0 and seq[i - 1] == name
             tags = dict(call=name, repeated=repeated, **tags0)
-            where = f"initial U={U} P={P} W={W}; history {list(path)}; sequence {list(seq[:i + 1])}"
+            where = f"initial U={U} P={P} W={W}; history {[x[0] for x in path]}; sequence {list(seq[:i + 1])}"
             res.outcome(f"{name}:{'ok' if o[0] == 'ok' else o[1]}")
             if o[0] != "ok":
                 res.violation("exception", f"{where}: raised {o[1]}: {o[2]}", exc=o[1], **tags)
@@ -156,13 +156,24 @@ def run_case(case, res):
     def chk(state, path):
         c = build(state)
         if not lib.curve_pw(c).same(D0):
-            res.violation("history_changed_curve", f"initial U={U} P={P}: history {list(path)} changed the curve (C04/C06)", **tags0)
+            res.violation("history_changed_curve", f"initial U={U} P={P}: history {[x[0] for x in path]} changed the curve (C04/C06)", **tags0)
             return
         seqs = SEQS_ALL + (SEQS_SHALLOW if len(path) <= 1 and poly_curve else ())
         if not poly_curve and len(path) > 1:
             return
         for seq in seqs:
             run_sequence(state, path, seq)
+        if path and poly_curve:
+            # the same history on ONE live object (nothing rebuilt from snapshots), then clean()
+            res.transition()
+            live = build((U, P, W))
+            for name, arg in path:
+                lib.outcome(live.degree_increase, 1) if arg is None else lib.outcome(live.knot_insert, list(arg))
+            o = lib.outcome(live.clean)
+            if o[0] != "ok" or lib.exact_curve(live) != minimal:
+                res.violation("not_minimal", f"initial U={U} P={P}: history {[x[0] for x in path]} on one object, then clean(): "
+                              f"{o[:2] if o[0] != 'ok' else lib.exact_curve(live)[:2]}, minimal form is {minimal[:2]}", call="clean",
+                              repeated=False, live=True, **tags0)
 
     def expand(state, path):
         V, Q, WQ = state
@@ -183,7 +194,7 @@ def run_case(case, res):
             if o[0] != "ok":
                 res.violation("exception", f"initial U={U}: history {list(path)} + {name} raised {o[1]}: {o[2]}", exc=o[1], call=name, **tags0)
                 continue
-            yield (name, lib.exact_curve(c))
+            yield ((name, None if arg is None else tuple(arg)), lib.exact_curve(c))
 
     bfs([(U, P, W)], key, chk, expand, depth, res)
     if poly_curve and len(finals) > 1:
